@@ -255,6 +255,44 @@ impl CrashSpec for ZipOffsetHist {
         let s = ZipOffsetBlobStore::load_from_file(dir.join("store.zo")).map_err(es)?;
         Ok(zo_state(&s, 5))
     }
+    /// With record checksums (level >= 2) a damaged record is detected when it is read: `get` returns an error.  That is
+    /// a refusal at record granularity; every record that IS served must be byte-identical and the count must agree.
+    fn same_state(&self, got: &[u8], sync: &[u8]) -> bool {
+        if got == sync {
+            return true;
+        }
+        if self.checksum < 2 {
+            return false;
+        }
+        if std::env::var("ZV_DEBUG").is_ok() {
+            eprintln!("got  {:?}\nsync {:?}", zo_parse(got).map(|(l, r)| (l, r.iter().map(|x| x.as_ref().map(|v| (v.len(), zverif::util::h64(v)))).collect::<Vec<_>>())), zo_parse(sync).map(|(l, r)| (l, r.iter().map(|x| x.as_ref().map(|v| (v.len(), zverif::util::h64(v)))).collect::<Vec<_>>())));
+        }
+        match (zo_parse(got), zo_parse(sync)) {
+            (Some((gl, g)), Some((sl, s))) => gl == sl && g.len() == s.len() && g.iter().zip(s.iter()).all(|(a, b)| a.is_none() || a == b),
+            _ => false,
+        }
+    }
+}
+/// inverse of `zo_state`: (len, per id: Some(bytes) = served, None = refused)
+fn zo_parse(st: &[u8]) -> Option<(u64, Vec<Option<Vec<u8>>>)> {
+    let len = u64::from_le_bytes(st.get(..8)?.try_into().ok()?);
+    let mut i = 8;
+    let mut recs = Vec::new();
+    while i < st.len() {
+        match st[i] {
+            0 => {
+                recs.push(None);
+                i += 1;
+            }
+            1 => {
+                let n = u32::from_le_bytes(st.get(i + 1..i + 5)?.try_into().ok()?) as usize;
+                recs.push(Some(st.get(i + 5..i + 5 + n)?.to_vec()));
+                i += 5 + n;
+            }
+            _ => return None,
+        }
+    }
+    Some((len, recs))
 }
 
 // ---- ZReorderMap --------------------------------------------------------------------------------
